@@ -9275,7 +9275,20 @@ where
 			let mut update_fulfill_count = 0;
 			let mut update_fail_count = 0;
 			let mut htlcs_to_fail = Vec::new();
-			for htlc_update in htlc_updates.drain(..) {
+			// Release the HTLC additions before the removals. `send_htlc` re-validates each addition
+			// against our view of the counterparty's next commitment, which treats an inbound HTLC as
+			// gone (and, if fulfilled, as already credited to us) as soon as it is `LocalRemoved`.
+			// That is only right if the counterparty sees the removal first, but everything freed here
+			// leaves in a single `CommitmentUpdate` in which `update_add_htlc`s precede the
+			// `update_fulfill_htlc`/`update_fail_htlc`s, and the counterparty validates each
+			// `update_add_htlc` as it arrives. Applying a queued claim first could thus let an addition
+			// through which only fits thanks to that claim (e.g. after our own in-flight `update_fee`
+			// took effect), which the counterparty answers by force-closing ("Remote HTLC add would
+			// put them under remote reserve value").
+			let (adds, removals): (Vec<_>, Vec<_>) = htlc_updates
+				.drain(..)
+				.partition(|upd| matches!(upd, HTLCUpdateAwaitingACK::AddHTLC { .. }));
+			for htlc_update in adds.into_iter().chain(removals.into_iter()) {
 				// Note that this *can* fail, though it should be due to rather-rare conditions on
 				// fee races with adding too many outputs which push our total payments just over
 				// the limit. In case it's less rare than I anticipate, we may want to revisit
